@@ -1,6 +1,8 @@
 package pgsim
 
 import (
+	"encoding/json"
+	"fmt"
 	"os"
 	"path/filepath"
 	"regexp"
@@ -99,4 +101,128 @@ func TestGoldenParse(t *testing.T) {
 		}
 	}
 	t.Logf("golden statements: %d, parse failures: %d", len(cases), bad)
+}
+
+func paramNames(stmt *Statement) []string {
+	seen := map[string]bool{}
+	var out []string
+	Walk(stmt.Body, func(n Node) bool {
+		if p, ok := n.(*Param); ok && !seen[p.Name] {
+			seen[p.Name] = true
+			out = append(out, p.Name)
+		}
+		return true
+	})
+	return out
+}
+
+// looksLikeSQL recognises the statements DAWGS passes around as text (shortest-path harness).
+func looksLikeSQL(s string) bool {
+	l := strings.ToLower(strings.TrimSpace(s))
+	return strings.HasPrefix(l, "insert into ") || strings.HasPrefix(l, "select ") || strings.HasPrefix(l, "with ")
+}
+
+// embeddedSQL returns every string literal of the statement that is itself SQL.
+func embeddedSQL(stmt *Statement) []string {
+	var out []string
+	Walk(stmt.Body, func(n Node) bool {
+		if l, ok := n.(*Literal); ok && l.Kind == "string" && looksLikeSQL(l.Text) {
+			out = append(out, l.Text)
+		}
+		return true
+	})
+	return out
+}
+
+func bindClean(t *testing.T, label, sql string, params map[string]any, stats *BindStats) {
+	t.Helper()
+	stmt, err := Parse(sql)
+	if err != nil {
+		t.Errorf("%s: parse: %v\n   %s", label, err, sql)
+		return
+	}
+	if params == nil {
+		params = map[string]any{}
+		for _, n := range paramNames(stmt) {
+			params[n] = "x"
+		}
+	}
+	issues, st := BindWithStats(stmt, params)
+	for _, is := range issues {
+		if is.Error || is.Kind == "unsupported" {
+			lo, hi := is.Pos-50, is.Pos+50
+			if lo < 0 {
+				lo = 0
+			}
+			if hi > len(sql) {
+				hi = len(sql)
+			}
+			t.Errorf("%s: %s\n   …%s…", label, is, sql[lo:hi])
+		}
+	}
+	if stats != nil {
+		stats.Frames += st.Frames
+		stats.CTEs += st.CTEs
+		stats.ColumnRefs += st.ColumnRefs
+		stats.CrossFrameRefs += st.CrossFrameRefs
+		stats.FieldSelections += st.FieldSelections
+		stats.UnknownTyped += st.UnknownTyped
+		stats.Correlated += st.Correlated
+		stats.Params += st.Params
+	}
+	for _, inner := range embeddedSQL(stmt) {
+		bindClean(t, label+" (embedded)", inner, nil, stats)
+	}
+}
+
+// every golden statement binds without an error issue; with the golden's own pgsql_params when listed
+func TestGoldenBind(t *testing.T) {
+	var stats BindStats
+	n := 0
+	for _, c := range loadGoldens(t) {
+		var params map[string]any
+		if c.Params != "" {
+			if err := json.Unmarshal([]byte(c.Params), &params); err != nil {
+				t.Fatalf("%s:%d params: %v", c.File, c.Line, err)
+			}
+		}
+		stmt, err := Parse(c.SQL)
+		if err != nil {
+			continue // reported by TestGoldenParse
+		}
+		if params != nil {
+			// goldens list only the parameters they want to assert on; the rest get placeholders
+			for _, p := range paramNames(stmt) {
+				if _, ok := params[p]; !ok {
+					params[p] = "x"
+				}
+			}
+		}
+		bindClean(t, fmt.Sprintf("%s:%d %q", c.File, c.Line, c.Cypher), c.SQL, params, &stats)
+		n++
+	}
+	t.Logf("bound %d golden statements: %+v", n, stats)
+}
+
+// every translated integration query binds; SQL passed in string parameters / literals binds too
+func TestIntegrationBind(t *testing.T) {
+	c := loadCorpus(t)
+	var stats BindStats
+	n, inner := 0, 0
+	for _, cc := range c.Cases {
+		tr := translateCase(c, cc)
+		if tr.Err != nil {
+			continue
+		}
+		label := cc.Source + " :: " + cc.Name
+		bindClean(t, label, tr.SQL, tr.Params, &stats)
+		n++
+		for name, v := range tr.Params {
+			if s, ok := v.(string); ok && looksLikeSQL(s) {
+				bindClean(t, label+" @"+name, s, nil, &stats)
+				inner++
+			}
+		}
+	}
+	t.Logf("bound %d translated statements and %d SQL-valued parameters: %+v", n, inner, stats)
 }
